@@ -110,9 +110,10 @@ CtorTypesMatchP(t, PP) ==
     \A i \in DOMAIN t.args : \A p \in PP : p[3] = t.args[i].name => p[4] = t.args[i].type
 \* among the arguments without a default, and among those with one, the order of the properties is kept
 CtorOrderKeptP(t, AM, PP) ==
-    \A i, j \in DOMAIN t.args :
-        (i < j /\ HasDefault(t.args[i]) = HasDefault(t.args[j])) =>
-            \A p, q \in PP : (p[3] = t.args[i].name /\ q[3] = t.args[j].name) => ~PropBeforeA(AM, q, p)
+    LET Of == [i \in DOMAIN t.args |-> {p \in PP : p[3] = t.args[i].name}]
+    IN  \A i, j \in DOMAIN t.args :
+            (i < j /\ HasDefault(t.args[i]) = HasDefault(t.args[j])) =>
+                \A p \in Of[i], q \in Of[j] : ~PropBeforeA(AM, q, p)
 R_ctor_matches_props(m) ==
     LET AM == AncMap(m)
     IN  \A k \in TIdx(m) : IsClass(m.types[k]) =>
